@@ -521,3 +521,22 @@ Definition entry_ok (e : entry) : bool :=
   && (e_pos e <? 65536) && (e_dic_form e <? 4294967296)
   && forallb (fun x => x <? 4294967296) (e_splits_a e) && forallb (fun x => x <? 4294967296) (e_splits_b e)
   && forallb (fun x => x <? 4294967296) (e_word_structure e) && forallb (fun x => x <? 4294967296) (e_synonyms e).
+
+(* ------------------------------------------------------------------ the words section inside the file *)
+(* Lexicon::parse / WordParams / WordInfos work on the whole file with absolute positions.  `off` = position of the
+   words section (u32 count, 6 bytes of params per word, u32 offset per word, word infos). *)
+Fixpoint nrange (k : nat) (from : N) : list N := match k with O => [] | S k' => from :: nrange k' (N.succ from) end.
+Definition file_count (file : bytes) (off : N) : N :=
+  match read_le32 (skipn (N.to_nat off) file) with Some (n, _) => n | None => 0 end.
+(* WordInfos::word_id_to_offset: the u32 at bytes[off + 4 + 6 n + 4 wid ..]; parse_word_info parses &bytes[index..]
+   (an index past the end panics; here: nothing to parse) *)
+Definition file_word_bytes (file : bytes) (off n wid : N) : bytes :=
+  match read_le32 (skipn (N.to_nat (off + 4 + 6 * n + 4 * wid)) file) with
+  | Some (o, _) => skipn (N.to_nat o) file
+  | None => []
+  end.
+Definition lexicon_of_file (file : bytes) (off : N) : lexicon :=
+  let n := file_count file off in map (file_word_bytes file off n) (nrange (N.to_nat n) 0).
+(* WordParams::get_params *)
+Definition file_params (file : bytes) (off wid : N) : option (Z * Z * Z) :=
+  read_params (skipn (N.to_nat (off + 4 + 6 * wid)) file).
